@@ -152,6 +152,53 @@ func tcpScenario(c tcfg) *mcx.Scenario {
 	}
 }
 
+// The CSM that a tcp/tls session sends at construction cannot be written (the TLS handshake fails, the peer
+// hung up): the read loop ends at once; the connection must still complete its done signal and run its
+// on-close callbacks exactly once.
+func csmFailScenario(handshake bool) *mcx.Scenario {
+	name := fmt.Sprintf("tcp-session whose initial CSM cannot be written (handshake-path=%v)", handshake)
+	return &mcx.Scenario{
+		Name:        name,
+		Bounds:      mcx.Bounds{Preempt: 1, Env: -1, Select: 0},
+		DeadlockSig: "blocked-forever/tcp-csm-write-fails",
+		Body: func(s *vrt.Sched) func() (string, []mcx.Finding) {
+			var fs []mcx.Finding
+			onClose := 0
+			var w *tcpw.World
+			waited := false
+			vrt.App("setup", func() {
+				o := tcpw.Opts{LimitTotal: 2, LimitEndpoint: 2, QueueSize: 2, OnClose: []func(){func() { onClose++ }, func() { onClose++ }}}
+				if handshake {
+					o.Handshake = func(context.Context) error { return fmt.Errorf("tls: first record does not look like a TLS handshake") }
+				} else {
+					o.WriteErr = fmt.Errorf("write: broken pipe")
+				}
+				w = tcpw.New(o)
+				vrt.App("waiter", func() { vrt.Recv(w.CC.Done()); waited = true })
+			})
+			return func() (string, []mcx.Finding) {
+				fail := func(sig, format string, a ...any) {
+					fs = append(fs, mcx.Finding{Sig: sig, What: name + ": " + fmt.Sprintf(format, a...)})
+				}
+				if !s.Deadlock {
+					if !w.RunDone {
+						fail("tcp/run-did-not-return", "Session.Run did not return")
+					} else if w.RunErr == nil {
+						fail("tcp/run-returned-no-error", "Session.Run returned nil although the CSM could not be written")
+					}
+					if !waited {
+						fail("tcp/done-not-closed", "Done() is not closed after the read loop ended (err=%v)", w.RunErr)
+					}
+					if onClose != 2 {
+						fail("tcp/on-close-callback-count", "2 on-close callbacks were registered, %d executions happened", onClose)
+					}
+				}
+				return fmt.Sprint(w.RunErr != nil), fs
+			}
+		},
+	}
+}
+
 // addSessionScenarios adds the scenarios over the real session types.
 func addSessionScenarios(r *ev.Run, scs *[]*mcx.Scenario) {
 	for _, op := range []string{"do", "observe", "ping", "write-blocked", "idle"} {
@@ -163,5 +210,6 @@ func addSessionScenarios(r *ev.Run, scs *[]*mcx.Scenario) {
 		}
 	}
 	*scs = append(*scs, tcpScenario(tcfg{Op: "full-queue", Intr: "close2", Preempt: ev.Pick(r, 1, 2)}))
+	*scs = append(*scs, csmFailScenario(false), csmFailScenario(true))
 	addUDPSessionScenarios(r, scs)
 }
